@@ -415,17 +415,17 @@ Section Stream2.
   Qed.
 
   (* ---------------- tests ---------------- *)
-  Lemma chk_test : forall u t c st,
+  Lemma chk_test : forall u pos t c st,
     Open u c st -> ss_teardown st = RNone ->
     lookup path_eqb (u ++ [m_name (t_meta t)]) (c_tests c) = None -> test_ok t = true ->
-    exists es c', replay_test replay_step now th u t = (es, None) /\ check_all m c es = Some c' /\
+    exists es c', replay_test replay_step now th u pos t = (es, None) /\ check_all m c es = Some c' /\
       Open u c' st /\ c_suites c' = c_suites c /\
       exists dt, c_tests c' = dt ++ c_tests c /\ Forall (fun kv => fst kv = u ++ [m_name (t_meta t)]) dt.
   Proof.
-    intros u t c st Hopen Htd Hfresh Hok.
+    intros u pos t c st Hopen Htd Hfresh Hok.
     destruct t as [tm r]. cbn [t_meta t_result] in *.
     pose proof Hopen as (Hp & _).
-    set (nd := mkNode u tm 0). set (p := u ++ [m_name tm]).
+    set (nd := mkNode u tm (test_key 0 pos)). set (p := u ++ [m_name tm]).
     assert (Hnew : forall x, new_test m c nd x = Some (put_test c p x)).
     { intro. unfold new_test. cbn [n_parent nd]. rewrite (open_suite_Open _ _ _ Hopen). rewrite Htd.
       unfold node_path. cbn [n_parent n_meta nd]. rewrite Hfresh. reflexivity. }
@@ -489,27 +489,27 @@ Section Stream2.
         exists [(p, TStarted)]. split; auto.
   Qed.
 
-  Lemma chk_tests : forall u st tests c,
+  Lemma chk_tests : forall u st tests c pos,
     Open u c st -> ss_teardown st = RNone ->
     (forall t, In t tests -> lookup path_eqb (u ++ [m_name (t_meta t)]) (c_tests c) = None) ->
     distinct (map (fun t => m_name (t_meta t)) tests) = true -> forallb test_ok tests = true ->
-    exists es c', seq_all (replay_test replay_step now th u) tests = (es, None) /\ check_all m c es = Some c' /\
+    exists es c', seq_all_from (replay_test replay_step now th u) pos tests = (es, None) /\ check_all m c es = Some c' /\
       Open u c' st /\ c_suites c' = c_suites c /\
       exists dt, c_tests c' = dt ++ c_tests c /\ Forall (fun kv => exists x, fst kv = u ++ [x]) dt.
   Proof.
-    intros u st. induction tests as [|t tests IH]; intros c Hopen Htd Hfresh Hd Hok.
+    intros u st. induction tests as [|t tests IH]; intros c pos Hopen Htd Hfresh Hd Hok.
     - exists [], c. split; [reflexivity|]. split; [reflexivity|]. split; [exact Hopen|]. split; [reflexivity|]. exists []. split; [reflexivity|constructor].
     - simpl in Hd, Hok. apply andb_true_iff in Hd. destruct Hd as [Hd1 Hd2].
       apply andb_true_iff in Hok. destruct Hok as [Hok1 Hok2]. apply negb_true_iff in Hd1.
-      destruct (chk_test u t c st Hopen Htd (Hfresh t (or_introl eq_refl)) Hok1)
+      destruct (chk_test u pos t c st Hopen Htd (Hfresh t (or_introl eq_refl)) Hok1)
         as [es1 [c1 [R1 [E1 [O1 [S1 [dt1 [T1 F1]]]]]]]].
-      destruct (IH c1 O1 Htd) as [es2 [c2 [R2 [E2 [O2 [S2 [dt2 [T2 F2]]]]]]]]; auto.
+      destruct (IH c1 (Z.succ pos) O1 Htd) as [es2 [c2 [R2 [E2 [O2 [S2 [dt2 [T2 F2]]]]]]]]; auto.
       { intros t' Ht'. rewrite T1. rewrite lookup_app_none; [apply Hfresh; right; assumption|].
         eapply Forall_impl; [|exact F1]. intros [k v] Hkv. simpl in Hkv. simpl. subst k.
         apply path_eqb_child.
         apply (existsb_false_in _ _ _ (m_name (t_meta t')) Hd1). apply in_map_iff. eauto. }
       exists (es1 ++ es2), c2. split; [|split; [|split; [|split]]]; auto.
-      + cbn [seq_all]. rewrite R1, R2. reflexivity.
+      + cbn [seq_all_from]. rewrite R1, R2. reflexivity.
       + rewrite check_all_app. rewrite E1. exact E2.
       + congruence.
       + exists (dt2 ++ dt1). split; [rewrite T2, T1, app_assoc; reflexivity|].
@@ -632,7 +632,7 @@ Section Stream3.
     { apply no_test_of_fresh; auto. }
     (* 3. tests *)
     destruct X2 as [T2 [ds2 [S2 G2]]].
-    destruct (chk_tests now th u (mkS false xs RNone) tests c2 O2 eq_refl) as [es3 [c3 [R3 [E3 [O3 [S3 [dt3 [T3 G3]]]]]]]]; auto.
+    destruct (chk_tests now th u (mkS false xs RNone) tests c2 0%Z O2 eq_refl) as [es3 [c3 [R3 [E3 [O3 [S3 [dt3 [T3 G3]]]]]]]]; auto.
     { intros t Ht. rewrite T2. cbn [c1 put_suite c_tests]. apply lookup_none_forall.
       eapply Forall_impl; [|exact HFT]. intros kv Hk. cbv beta in *.
       destruct (path_eqb (fst kv) (u ++ [m_name (t_meta t)])) eqn:E; auto.
@@ -857,14 +857,14 @@ Section Contig.
     - exists cur, []. split; [|split; auto]. reflexivity.
   Qed.
 
-  Lemma cf_test : forall u t cur seen, test_ok t = true ->
+  Lemma cf_test : forall u pos t cur seen, test_ok t = true ->
     notin (LocTest (u ++ [m_name (t_meta t)])) seen -> cur_ok cur seen ->
-    exists es, replay_test replay_step now th u t = (es, None) /\
+    exists es, replay_test replay_step now th u pos t = (es, None) /\
       forall rest, contiguous_from cur seen (es ++ rest)
                    = contiguous_from (Some (LocTest (u ++ [m_name (t_meta t)]))) (LocTest (u ++ [m_name (t_meta t)]) :: seen) rest.
   Proof.
-    intros u t cur seen Hok Hn Hc. destruct t as [tm r]. cbn [t_meta t_result] in *.
-    set (nd := mkNode u tm 0). set (loc := LocTest (u ++ [m_name tm])) in *.
+    intros u pos t cur seen Hok Hn Hc. destruct t as [tm r]. cbn [t_meta t_result] in *.
+    set (nd := mkNode u tm (test_key 0 pos)). set (loc := LocTest (u ++ [m_name tm])) in *.
     unfold test_ok in Hok. cbn [t_result] in Hok. unfold replay_test. cbn [t_result t_meta]. fold nd.
     assert (Hstarted : forall l, l = ETestStart nd (event_time now (r_start r))
               :: replay_steps replay_step now th (LocTest (node_path nd)) (r_steps r)
@@ -893,26 +893,26 @@ Section Contig.
       + eexists. split; [reflexivity|]. apply Hstarted. reflexivity.
   Qed.
 
-  Lemma cf_tests : forall u tests cur seen,
+  Lemma cf_tests : forall u tests pos cur seen,
     forallb test_ok tests = true -> distinct (map (fun t => m_name (t_meta t)) tests) = true ->
     (forall t, In t tests -> notin (LocTest (u ++ [m_name (t_meta t)])) seen) -> cur_ok cur seen ->
-    exists es cur' d, seq_all (replay_test replay_step now th u) tests = (es, None) /\
+    exists es cur' d, seq_all_from (replay_test replay_step now th u) pos tests = (es, None) /\
       (forall rest, contiguous_from cur seen (es ++ rest) = contiguous_from cur' (d ++ seen) rest) /\
       cur_ok cur' (d ++ seen) /\ Forall (fun l => exists x, l = LocTest (u ++ [x])) d.
   Proof.
-    intros u. induction tests as [|t tests IH]; intros cur seen Hok Hd Hfresh Hc.
+    intros u. induction tests as [|t tests IH]; intros pos cur seen Hok Hd Hfresh Hc.
     - exists [], cur, []. repeat split; auto.
     - simpl in Hok, Hd. apply andb_true_iff in Hok. destruct Hok as [Hok1 Hok2].
       apply andb_true_iff in Hd. destruct Hd as [Hd1 Hd2]. apply negb_true_iff in Hd1.
-      destruct (cf_test u t cur seen Hok1 (Hfresh t (or_introl eq_refl)) Hc) as [es1 [R1 C1]].
+      destruct (cf_test u pos t cur seen Hok1 (Hfresh t (or_introl eq_refl)) Hc) as [es1 [R1 C1]].
       set (loc := LocTest (u ++ [m_name (t_meta t)])) in *.
-      destruct (IH (Some loc) (loc :: seen) Hok2 Hd2) as [es2 [cur' [d [R2 [C2 [K2 F2]]]]]].
+      destruct (IH (Z.succ pos) (Some loc) (loc :: seen) Hok2 Hd2) as [es2 [cur' [d [R2 [C2 [K2 F2]]]]]].
       { intros t' Ht'. apply notin_cons; [|apply Hfresh; right; assumption].
         unfold loc. simpl. rewrite path_eqb_child; auto.
         apply str_eqb_sym_false. apply (existsb_false_in _ _ _ (m_name (t_meta t')) Hd1). apply in_map_iff. eauto. }
       { apply cur_ok_enter. }
       exists (es1 ++ es2), cur', (d ++ [loc]). split; [|split; [|split]].
-      + cbn [seq_all]. rewrite R1, R2. reflexivity.
+      + cbn [seq_all_from]. rewrite R1, R2. reflexivity.
       + intro rest. rewrite <- app_assoc. rewrite C1, C2. rewrite <- app_assoc. reflexivity.
       + rewrite <- app_assoc. exact K2.
       + apply Forall_app. split; auto. constructor; [|constructor]. exists (m_name (t_meta t)). reflexivity.
@@ -992,7 +992,7 @@ Section Contig.
     { apply (notin_fresh u); auto. simpl. apply has_prefix_refl. }
     assert (F1 : Forall (fun l => l = LocSuiteSetup u) d1) by (destruct D1; subst; repeat constructor).
     (* tests *)
-    destruct (cf_tests u tests cur1 (d1 ++ seen) Htests Hdtests) as [es2 [cur2 [d2 [R2 [C2 [K2 F2]]]]]]; auto.
+    destruct (cf_tests u tests 0%Z cur1 (d1 ++ seen) Htests Hdtests) as [es2 [cur2 [d2 [R2 [C2 [K2 F2]]]]]]; auto.
     { intros t Ht. apply notin_app.
       - destruct D1; subst; [reflexivity|]. reflexivity.
       - apply (notin_fresh u); auto. simpl. apply below_child. }
